@@ -555,7 +555,10 @@ func (o *c10Oracle) After(w *World, ev *Event, res Result) *Violation {
 	} else {
 		// exchange at the posted price: got <= (paid + bonus) * debtPrice * collDec / (debtDec * auctionPrice) + 1
 		if au.CollateralTokenAuctionPrice.IsPositive() {
+			// one smallest unit of rounding in either coin: the payment may have been truncated by one debt unit,
+			// the collateral rounded by one collateral unit
 			num := new(big.Int).Add(paid.BigInt(), au.BonusAmount.BigInt())
+			num.Add(num, big.NewInt(1))
 			num.Mul(num, new(big.Int).SetUint64(o.pre.debtPrice))
 			num.Mul(num, o.pre.collDec.BigInt())
 			num.Mul(num, oneE18)
